@@ -1522,7 +1522,7 @@ def eval_routes_case(ctx, c, rep):
         z = build_zone(origin_labels, rel, c["recs"])
     except ValueError:
         if c.get("tag") == "comment-line-break":
-            ctx.count("routes.comment-line-break-refused-at-construction")     # an acceptable repair: no such rdata can be made
+            ctx.count("routes.comment-line-break-refused-at-construction")     # the reference since de8b98a: no such rdata can be made
             return
         raise
     if c.get("empties"):
